@@ -102,15 +102,17 @@ func locate(idx int) (kind string, sub int) {
 func init() {
 	runner.Register(&runner.Prop{
 		ID: "C16",
-		Rule: "One case = one hostile input sent through every exported byte-taking entry point of avc, hevc, sei, aac, av1 and mp4.Get{AVC,HEVC}ProtectRanges " +
+		Rule: "One case = one hostile input (chain and sei-short: a small group of dependent inputs) sent through every exported byte-taking entry point of avc, hevc, sei, aac, av1 and mp4.Get{AVC,HEVC}ProtectRanges " +
 			"(raw and with the NAL header rewritten to the type the parser insists on; dependent parsers get maps of real parsed parameter sets for every id; ParseSEINalu gets nil and SPS values with every reachable HRD length; " +
-			"the SEI decoders get every external-parameter combination; Type/Size/String/Payload/json.Marshal/WriteSEIMessages on every returned message; Size/Encode/EncodeSW on every decoded configuration record). " +
+			"the SEI decoders get the external-parameter combinations (all of them for SEI inputs, a rotating subset otherwise); Type/Size/String/Payload/WriteSEIMessages on every returned message; Size/Encode/EncodeSW on every decoded configuration record). " +
 			"Seeds: NAL units of the repo's Annex B test streams (split by ref/annexb), hex literals of the codec packages' tests, hand-built SEI payloads of every implemented type (incl. zero clock timestamps), AVC SPS with VUI+HRD, FMO PPS, slices with list modification/weights/marking, ADTS/ASC, avcC/hvcC/av1C. " +
-			"Generators: trunc (every prefix of every seed), const (all-00/all-ff/80 strings of every length <= 64 behind every NAL header), sei-short (every SEI type x payload length 0..40), " +
-			"ue (an Exp-Golomb code of value 2^16, 2^21, 2^22 and - for a sampled subset - 2^31, 2^32-2, 2^32-1 written at every bit position of every parameter set/slice/SEI seed, RBSP re-escaped), " +
-			"chain (mutated SPS/PPS parsed and then used as maps for the slices, SEI and protect ranges of the same stream), flip (bit flips/boundary bytes), lenprefix (hostile 4-byte length fields, samples of 0..3 bytes), splice, stream (mutated Annex B streams). " +
-			"2 % of the cases also go through the mp4ff-nallister and mp4ff-pslister binaries. A case is non-trivial when at least one operation accepted the input (returned a value without error); distinct_nontrivial counts distinct such input hashes; evaluations counts library calls. " +
-			"Bounds: bytes allocated per call (runtime/metrics /gc/heap/allocs:bytes delta) <= 8 MiB + 1024*len; CPU via the runner watchdog (per case budget 6 s >= 2 s + 20 us*len for len <= 64 KiB, confirmed solo); RLIMIT_AS 3 GiB.",
+			"Generators: trunc (every prefix of every seed), const (00/ff/80/01/55 strings of every length <= 64 behind every NAL header), sei-short (21 SEI types x payload length 0..40 x 4 fills, direct and framed), " +
+			"ue (an Exp-Golomb code written at every RBSP bit position 0..319 of parameter set/slice/SEI seeds, RBSP re-escaped: pass 1 values 2^21/2^22, pass 2 values 32,64,255,256,65535,65536 and for 1/8 of the positions 2^24, 2^31, 2^32-2, 2^32-1), " +
+			"chain (mutated SPS/PPS parsed and then used as maps for the slices, SEI and protect ranges of the same stream), flip (bit flips/boundary bytes/cuts/inserts), lenprefix (hostile 4-byte length fields, samples of 0..7 bytes), splice, stream (mutated Annex B streams). " +
+			"2 % of the cases also go through the mp4ff-nallister and mp4ff-pslister binaries. The library calls run in a probe subprocess of each worker whose monitor goroutine watches the call in flight " +
+			"(bytes allocated since the call started, runtime/metrics /gc/heap/allocs:bytes, against 8 MiB + 1024*len; process CPU time against 2 s + 20 us*len, a CPU exceedance must be reproduced in a fresh probe; " +
+			"after a hang key is confirmed, calls found at 30 ms CPU inside the same function are aborted and counted as presumed repeats, not reported); the runner watchdog (6 s CPU per case, RLIMIT_AS 3 GiB) is the backstop. " +
+			"A case is non-trivial when at least one operation accepted the input (returned a value without error); distinct_nontrivial counts distinct such input hashes; evaluations counts library calls and tool runs.",
 		Assumptions: []string{
 			"external SEI parameters stay inside what a parsed SPS can produce (5-bit length fields 0..31)",
 			"allocation is measured as the cumulative heap allocation delta of the worker (GOMAXPROCS=2, nothing else running); small-object accounting lags by at most a few spans, far below the 8 MiB slack",
